@@ -163,6 +163,49 @@ pub fn run_c06(ctx: &mut Ctx, _known: &Known) {
             forms.push((format!("of(ident,{}) x{}", n, k), vec![("G".into(), seq.clone()), ("condition".into(), ys(&format!("of(G, {})", n)))], Box::new(move |v| t_of(n, v)), false));
             forms.push((format!("not of(ident,{}) x{}", n, k), vec![("G".into(), seq.clone()), ("condition".into(), ys(&format!("not of(G, {})", n)))], Box::new(move |v| t_not(t_of(n, v))), false));
         }
+        // (b') a mapping whose entries are of different kinds (regex, number, plain text), written
+        //      most-expensive first: still the conjunction in WRITTEN order
+        if k >= 2 {
+            let kind_val = |i: usize| -> Yaml { match i % 3 { 0 => ys("?^x$"), 1 => Yaml::Number(7u64.into()), _ => ys("x") } };
+            let mixed: Vec<(String, Yaml)> = (0..k).map(|i| (format!("f{}", i), kind_val(i))).collect();
+            let mdocs: Vec<Yaml> = vs.iter().map(|v| {
+                let mut m = Mapping::new();
+                for (i, t) in v.iter().enumerate() {
+                    let (tv, fv) = if i % 3 == 1 { (Yaml::Number(7u64.into()), Yaml::Number(3u64.into())) } else { (ys("x"), ys("y")) };
+                    match t {
+                        Tri::T => { m.insert(ys(&format!("f{}", i)), tv); }
+                        Tri::F => { m.insert(ys(&format!("f{}", i)), fv); }
+                        Tri::M => {}
+                    }
+                }
+                Yaml::Mapping(m)
+            }).collect();
+            let mforms: Vec<(String, Vec<(String, Yaml)>, Box<dyn Fn(&[Tri]) -> Tri>)> = vec![
+                (format!("mixed-kind mapping x{}", k), vec![("G".into(), mapn(mixed.clone())), ("condition".into(), ys("G"))], Box::new(|v| t_and(v))),
+                (format!("not mixed-kind mapping x{}", k), vec![("G".into(), mapn(mixed.clone())), ("condition".into(), ys("not G"))], Box::new(|v| t_not(t_and(v)))),
+                (format!("nested mixed-kind mapping x{}", k), vec![("G".into(), map1("o", mapn(mixed.clone()))), ("condition".into(), ys("not G"))], Box::new(|v| t_not(t_and(v)))),
+            ];
+            for (name, det, table) in mforms {
+                let nested = name.starts_with("nested");
+                let ds: Vec<Yaml> = if nested { mdocs.iter().map(|d| map1("o", d.clone())).collect() } else { mdocs.clone() };
+                let c = case(det, ds, vec![0]);
+                let (ex, parsed) = run_rule_case(ctx, &c, false);
+                let ry = rule_yaml(&c);
+                let p = match parsed {
+                    Some(p) if p.load == "ok" => p,
+                    _ => continue,
+                };
+                let got = tri_of(&p, 0);
+                for (j, v) in vs.iter().enumerate() {
+                    let want = table(v);
+                    ctx.nontrivial.insert(hash_str(&format!("{}{:?}", name, v)));
+                    if got.get(j).map(|s| s.as_str()) != Some(want.name()) {
+                        ctx.violation("oracle", &format!("form `{}` operands {:?}: engine gives {:?}, truth table gives {}", name, v, got.get(j), want.name()), &ex, &ry, true);
+                        break;
+                    }
+                }
+            }
+        }
         // (c') the same, each entry holding a list that stays an or-group of two searches
         //      (a literal and a regex are not batched together): still ONE operand per entry
         let seq2 = Yaml::Sequence((0..k).map(|i| map1(&format!("f{}", i), Yaml::Sequence(vec![ys("x"), ys("?^x$")]))).collect());
@@ -385,6 +428,46 @@ pub fn run_c05(ctx: &mut Ctx, _known: &Known) {
         let mut r = Rng::new(ctx.seed.wrapping_add(i as u64 * 7919));
         let idn: Vec<String> = names.iter().map(|s| s.to_string()).collect();
         all.push(gen::gen_cond(&mut r, &idn, 0));
+    }
+    // parentheses override precedence in the optimised rule too: two parenthesised chains joined by
+    // the other operator (what the flattening pass regroups)
+    {
+        let ids6: Vec<(String, Yaml)> = (0..6).map(|i| (format!("Q{}", i), map1(&format!("f{}", i), ys("x")))).collect();
+        let vs6 = vectors(6);
+        let docs6: Vec<Yaml> = vs6.iter().map(|v| doc_for(v)).collect();
+        let forms: Vec<(&str, Box<dyn Fn(&[Tri]) -> Tri>)> = vec![
+            ("(Q0 or Q1 or Q2) and (Q3 or Q4 or Q5)", Box::new(|v: &[Tri]| t_and(&[t_or(&v[0..3]), t_or(&v[3..6])]))),
+            ("(Q0 and Q1 and Q2) or (Q3 and Q4 and Q5)", Box::new(|v: &[Tri]| t_or(&[t_and(&v[0..3]), t_and(&v[3..6])]))),
+            ("(Q0 or Q1 or Q2) and Q3 and (Q4 or Q5)", Box::new(|v: &[Tri]| t_and(&[t_and(&[t_or(&v[0..3]), v[3]]), t_or(&v[4..6])]))),
+            ("Q0 and (Q1 or Q2 or Q3) and Q4", Box::new(|v: &[Tri]| t_and(&[t_and(&[v[0], t_or(&v[1..4])]), v[4]]))),
+            ("Q0 or (Q1 and Q2 and Q3) or Q4", Box::new(|v: &[Tri]| t_or(&[t_or(&[v[0], t_and(&v[1..4])]), v[4]]))),
+            ("not ((Q0 or Q1 or Q2) and (Q3 or Q4 or Q5))", Box::new(|v: &[Tri]| t_not(t_and(&[t_or(&v[0..3]), t_or(&v[3..6])])))),
+        ];
+        for (text, table) in forms {
+            let mut det = ids6.clone();
+            det.push(("condition".into(), ys(text)));
+            let cs = case(det, docs6.clone(), vec![0, 2, 3, 15]);
+            let (ex, parsed) = run_rule_case(ctx, &cs, false);
+            let p = match parsed {
+                Some(p) if p.load == "ok" => p,
+                _ => continue,
+            };
+            ctx.nontrivial.insert(hash_str(text));
+            for m in &p.masks {
+                if m.mask != 0 && ex.agree {
+                    continue;
+                }
+                for (j, v) in vs6.iter().enumerate() {
+                    let want = table(v);
+                    let got = m.res[j].0.as_str();
+                    let ok = if m.mask == 0 { got == want.name() } else { (got == "T") == (want.name() == "T") };
+                    if !ok {
+                        ctx.violation("oracle", &format!("condition `{}` (mask {}) on operands {:?}: engine gives {}, the grammar and the tables give {}", text, m.mask, v, got, want.name()), &ex, text, true);
+                        break;
+                    }
+                }
+            }
+        }
     }
     for (ci, c) in all.iter().enumerate() {
         let want = cond_sx(c);
@@ -1245,6 +1328,56 @@ pub fn run_c10(ctx: &mut Ctx, _known: &Known) {
                                 ctx.violation("oracle", &format!("rule on key {:?}: YAML mapping {} / serde_json {} but the addressed value {} 'deep'", key, a, b, if expect { "is" } else { "is not" }), &ex, &text, true);
                             }
                         }
+                    }
+                }
+            }
+        }
+    }
+    // several nested mappings on ONE array field, and-ed (the optimiser merges them): each means
+    // "some element satisfies it", independently of the others — plain and optimised
+    {
+        let el = |kvs: Vec<(&str, u64)>| -> Yaml { mapn(kvs.into_iter().map(|(k, v)| (k.to_string(), Yaml::Number(v.into()))).collect()) };
+        let pool: Vec<Yaml> = vec![el(vec![("x", 1)]), el(vec![("y", 2)]), el(vec![("z", 3)]), el(vec![("x", 1), ("y", 2)]), el(vec![("x", 2)]), el(vec![("y", 1)])];
+        let mut arrays: Vec<Vec<Yaml>> = pool.iter().map(|e| vec![e.clone()]).collect();
+        for a in &pool {
+            for b in &pool {
+                arrays.push(vec![a.clone(), b.clone()]);
+            }
+        }
+        let mut docs3: Vec<Yaml> = vec![];
+        for a in &arrays {
+            docs3.push(mapn(vec![("k".into(), Yaml::Number(1u64.into())), ("oa".into(), Yaml::Sequence(a.clone()))]));
+        }
+        docs3.push(mapn(vec![("k".into(), Yaml::Number(1u64.into()))]));
+        docs3.push(mapn(vec![("oa".into(), Yaml::Sequence(vec![pool[3].clone()]))]));
+        let has = |d: &Yaml, key: &str, val: u64| -> bool {
+            match d.as_mapping().and_then(|m| m.get(ys("oa"))) {
+                Some(Yaml::Sequence(xs)) => xs.iter().any(|e| e.as_mapping().and_then(|m| m.get(ys(key))).and_then(|v| v.as_u64()) == Some(val)),
+                _ => false,
+            }
+        };
+        let kk = |d: &Yaml| d.as_mapping().and_then(|m| m.get(ys("k"))).and_then(|v| v.as_u64()) == Some(1);
+        for cond in ["A and B and C", "C and A and B", "A and B", "A and B and C and A"] {
+            let det = vec![
+                ("A".to_string(), map1("oa", map1("x", Yaml::Number(1u64.into())))),
+                ("B".to_string(), map1("oa", map1("y", Yaml::Number(2u64.into())))),
+                ("C".to_string(), map1("k", Yaml::Number(1u64.into()))),
+                ("condition".to_string(), ys(cond)),
+            ];
+            let cs = case(det, docs3.clone(), vec![0, 2, 3, 15]);
+            let (ex, parsed) = run_rule_case(ctx, &cs, false);
+            let ry = rule_yaml(&cs);
+            let p = match parsed {
+                Some(p) if p.load == "ok" => p,
+                _ => continue,
+            };
+            for m in &p.masks {
+                for (j, d) in docs3.iter().enumerate() {
+                    let want = has(d, "x", 1) && has(d, "y", 2) && (!cond.contains('C') || kk(d));
+                    ctx.nontrivial.insert(hash_str(&format!("nestedand{}{}", cond, j)));
+                    if (m.res[j].0 == "T") != want {
+                        ctx.violation("oracle", &format!("`{}` (mask {}): document {} gives {} but 'some element has x = 1' and 'some element has y = 2'{} is {}", cond, m.mask, serde_yaml::to_string(d).unwrap_or_default().replace('\n', " "), m.res[j].0, if cond.contains('C') { " and k = 1" } else { "" }, want), &ex, &ry, true);
+                        break;
                     }
                 }
             }
